@@ -23,7 +23,7 @@ RULE = ("cases: plog models of every class (integer leaves, explicit and generat
         "configured polyhedra; to_b64 -> from_b64. non-trivial: the model has defaults or integer leaves or depth>=2 (every configured polyhedron "
         "counts); distinct by recipe digest"
         ' Also: models returned by assume/reduce/negate, configurators packed after use, polyhedra with custom row index, dtype and coefficients beyond 32 bits, a second unpack after the first copy was changed in place.')
-BUDGET = {"quick": (12, 220, 90), "thorough": (16, 2200, 1200)}
+BUDGET = {"quick": (12, 660, 90), "thorough": (16, 2200, 1200)}
 PYTEST = True     # thorough tier also runs the repository's own tests under these monitors
 MANDATORY = ["judged:proposition:structure", "judged:proposition:text", "judged:proposition:queries", "judged:polyhedron:structure",
              "judged:polyhedron:select", "judged:polyhedron:writeable", "contract:AtLeast.to_b64", "contract:ge_polyhedron_config.to_b64", "count:with-defaults", "count:xnor-or-imply", "count:derived-by-assume", "count:derived-by-reduce", "count:packed-after-use", "judged:second-unpack-independent-of-first", "count:not-validated-models"]
